@@ -6,13 +6,17 @@ package main
 // server that answers with scripted status codes, a temp file, a recording kafka producer and a
 // loopback TCP listener (gelf), and records every request body.
 //
-//	which 0 es | 1 file | 2 http | 3 kafka | 4 splunk | 5 gelf
+//	which 0 es | 1 file | 2 http | 3 kafka | 4 splunk | 5 gelf | 6 loki      (+ 16 * variant, see variants.go:
+//	      the variant selects AvgEventSize / batch_size / use_gzip / two endpoints / a fresh plugin instance for
+//	      this case / Dig before out(); the model is value-level and reduces which modulo 16)
 //	  case = (cfg (batch ...) (status ...))      batch = (ev ...)
 //	  ev   = (kind #enc (#raw ...) (#esc ...) #topic alt)     alt = 0 | #bytes
 //	         the event is re-built from #enc alone; raw/esc/topic/alt are the oracle values the
 //	         model uses (filled in by the generator from insane-json, hypotheses checked every run)
 //	  cfg  es: (#op #index_format (#value ...) #time split)  file: ()  http: (raw split)
 //	       kafka: (#default_topic use_topic_field batch_size)  splunk: ()  gelf: ()
+//	       loki: (#labels_json)   ev for loki: raw = (#ts_json #msg_json), topic = #626164 when the timestamp is
+//	       rejected, alt = the rest of the event as encoding/json writes it (see loki.go)
 //	  obs  = (attempt ...)   attempt = (0 ((#body status) ...) ret) | (2)   [panic ends the case]
 //	         a batch is offered again (at most 3 times) while out() returns an error
 //	which 7  Batch.ForEach: case = (kind ...)   obs = (position visited ...)
@@ -21,6 +25,7 @@ package main
 
 import (
 	"bytes"
+	"compress/gzip"
 	"context"
 	"encoding/json"
 	"errors"
@@ -31,10 +36,12 @@ import (
 	"net/http/httptest"
 	"os"
 	"path/filepath"
+	"strconv"
 	"strings"
 	"sync"
 	"time"
 
+	fdcfg "github.com/ozontech/file.d/cfg"
 	"github.com/ozontech/file.d/metric"
 	"github.com/ozontech/file.d/pipeline"
 	esout "github.com/ozontech/file.d/plugin/output/elasticsearch"
@@ -65,12 +72,14 @@ const (
 type recorder struct {
 	mu     sync.Mutex
 	script []int
+	dflt   int // the answer once the script is used up (200; loki: 204)
+	loki   bool
 	reqs   []hx.Sx
 }
 
 func (r *recorder) next() int {
 	if len(r.script) == 0 {
-		return 200
+		return r.dflt
 	}
 	s := r.script[0]
 	r.script = r.script[1:]
@@ -79,34 +88,80 @@ func (r *recorder) next() int {
 
 func (r *recorder) add(body []byte, st int) { r.reqs = append(r.reqs, hx.L(hx.B(body), hx.I(st))) }
 
-var rec = &recorder{}
+var rec = &recorder{dflt: 200}
 
 var (
 	srvOnce sync.Once
-	srvURL  string
+	srvURLs [2]string
+	srvHits [2]int // requests seen per endpoint (under rec.mu)
+	gzReqs  int    // requests that arrived gzip-encoded
 )
 
-func server() string {
+// two endpoints share the recorder; a gzip body is recorded decompressed (what the sink handed to
+// the client); status 199 cannot be written through net/http (1xx is informational there), so the
+// connection is hijacked and the status line written by hand
+func servers() [2]string {
 	srvOnce.Do(func() {
-		s := httptest.NewServer(http.HandlerFunc(func(w http.ResponseWriter, req *http.Request) {
-			body, _ := io.ReadAll(req.Body)
-			rec.mu.Lock()
-			st := rec.next()
-			rec.add(body, st)
-			rec.mu.Unlock()
-			w.WriteHeader(st)
-			_, _ = w.Write([]byte(`{"errors":false,"code":0}`))
-		}))
-		srvURL = s.URL
+		for id := 0; id < 2; id++ {
+			id := id
+			s := httptest.NewServer(http.HandlerFunc(func(w http.ResponseWriter, req *http.Request) {
+				body, _ := io.ReadAll(req.Body)
+				gz := req.Header.Get("Content-Encoding") == "gzip"
+				if gz {
+					plain := []byte("!gzip-undecodable!")
+					if zr, err := gzip.NewReader(bytes.NewReader(body)); err == nil {
+						if b, err := io.ReadAll(zr); err == nil {
+							plain = b
+						}
+					}
+					body = plain
+				}
+				rec.mu.Lock()
+				if rec.loki {
+					body = canonNow(body)
+				}
+				st := rec.next()
+				rec.add(body, st)
+				srvHits[id]++
+				if gz {
+					gzReqs++
+				}
+				rec.mu.Unlock()
+				if st == 199 {
+					if hj, ok := w.(http.Hijacker); ok {
+						if conn, _, err := hj.Hijack(); err == nil {
+							_, _ = conn.Write([]byte("HTTP/1.1 199 Verif\r\nContent-Length: 0\r\nConnection: close\r\n\r\n"))
+							_ = conn.Close()
+							return
+						}
+					}
+				}
+				w.WriteHeader(st)
+				if st != 204 && st != 304 {
+					_, _ = w.Write([]byte(`{"errors":false,"code":0}`))
+				}
+			}))
+			srvURLs[id] = s.URL
+		}
 	})
-	return srvURL
+	return srvURLs
 }
 
-func params(name string) *pipeline.OutputPluginParams {
+func server() string { return servers()[0] }
+
+func endpoints(two bool) []string {
+	u := servers()
+	if two {
+		return []string{u[0], u[1]}
+	}
+	return []string{u[0]}
+}
+
+func params(name string, avg int) *pipeline.OutputPluginParams {
 	return &pipeline.OutputPluginParams{
 		PluginDefaultParams: pipeline.PluginDefaultParams{
 			PipelineName:     "verif_" + name,
-			PipelineSettings: &pipeline.Settings{AvgEventSize: avgSize},
+			PipelineSettings: &pipeline.Settings{AvgEventSize: avg},
 			MetricCtl:        metric.NewCtl("verif_"+name, prometheus.NewRegistry(), time.Minute, 0),
 		},
 		Logger: zap.NewNop().Sugar(),
@@ -118,7 +173,10 @@ func params(name string) *pipeline.OutputPluginParams {
 // sinks
 // ---------------------------------------------------------------------------------------------
 type sink struct {
-	out func(b *pipeline.Batch) error // one call of the plugin's out(); requests land in rec
+	out  func(b *pipeline.Batch) error       // one call of the plugin's out(); requests land in rec
+	run  func(evs []*pipeline.Event) []hx.Sx // loki: a whole batch through the plugin's own batcher
+	stop func()                              // fresh instances are stopped when their case ends
+	wait time.Duration                       // rotating file sink: pause after every second batch
 }
 
 var (
@@ -129,14 +187,22 @@ var (
 func cfgInts(cfg hx.Sx) []hx.Sx { return hx.Items(cfg) }
 
 func getSink(which int, cfg hx.Sx) *sink {
+	kind, rw, fresh, _ := splitWhich(which)
 	key := fmt.Sprintf("%d|%s", which, hx.String(cfg))
-	if s, ok := sinks[key]; ok {
-		return s
+	if !fresh {
+		if s, ok := sinks[key]; ok {
+			return s
+		}
 	}
 	sinkSeq++
 	name := fmt.Sprintf("s%d", sinkSeq)
+	bs := fdcfg.Expression(strconv.Itoa(rw.batch))
+	gzLevel := "default"
+	if rw.batch < 16 {
+		gzLevel = "best-speed"
+	}
 	var s *sink
-	switch which {
+	switch kind {
 	case 0:
 		it := hx.Items(cfg)
 		var vals []string
@@ -144,31 +210,36 @@ func getSink(which int, cfg hx.Sx) *sink {
 			vals = append(vals, hx.Str(v))
 		}
 		c := &esout.Config{
-			Endpoints:   []string{server()},
+			Endpoints:   endpoints(rw.two),
 			IndexFormat: hx.Str(it[1]),
 			IndexValues: vals,
 			BatchOpType: hx.Str(it[0]),
 			TimeFormat:  hx.Str(it[3]),
 			SplitBatch:  hx.Truth(it[4]),
-			BatchSize:   "16", WorkersCount: "1",
+			UseGzip:     rw.gzip, GzipCompressionLevel: gzLevel,
+			BatchSize: bs, WorkersCount: "1",
 		}
 		test.NewConfig(c, map[string]int{"gomaxprocs": 1, "capacity": 64})
 		p := &esout.Plugin{}
-		p.Start(c, params(name))
+		p.Start(c, params(name, rw.avg))
 		p.VerifSetTime(hx.Str(it[3]))
 		wd := pipeline.WorkerData(nil)
 		tm := hx.Str(it[3])
-		s = &sink{out: func(b *pipeline.Batch) error { p.VerifSetTime(tm); return p.VerifOut(&wd, b) }}
+		s = &sink{out: func(b *pipeline.Batch) error { p.VerifSetTime(tm); return p.VerifOut(&wd, b) }, stop: p.Stop}
 	case 1:
 		dir, err := os.MkdirTemp("", "verif-c19-file")
 		if err != nil {
 			panic(err)
 		}
+		if rw.rotate {
+			s = rotatingFileSink(name, dir)
+			break
+		}
 		tmpDirs = append(tmpDirs, dir)
-		c := &fileout.Config{TargetFile: filepath.Join(dir, "out.log"), RetentionInterval: "100h", BatchSize: "16", WorkersCount: "1"}
+		c := &fileout.Config{TargetFile: filepath.Join(dir, "out.log"), RetentionInterval: "100h", BatchSize: bs, WorkersCount: "1"}
 		test.NewConfig(c, map[string]int{"gomaxprocs": 1, "capacity": 64})
 		p := &fileout.Plugin{}
-		p.Start(c, params(name))
+		p.Start(c, params(name, rw.avg))
 		wd := pipeline.WorkerData(nil)
 		var off int64
 		s = &sink{out: func(b *pipeline.Batch) error {
@@ -187,22 +258,23 @@ func getSink(which int, cfg hx.Sx) *sink {
 				off = 0
 			}
 			return nil
-		}}
+		}, stop: func() { p.Stop(); _ = os.RemoveAll(dir) }}
 	case 2:
 		it := hx.Items(cfg)
 		c := &httpout.Config{
-			Endpoints:  []string{server()},
+			Endpoints:  endpoints(rw.two),
 			SplitBatch: hx.Truth(it[1]),
-			BatchSize:  "16", WorkersCount: "1",
+			UseGzip:    rw.gzip, GzipCompressionLevel: gzLevel,
+			BatchSize: bs, WorkersCount: "1",
 		}
 		if hx.Truth(it[0]) {
 			c.Encoding = httpout.EncodingConfig{Type: "raw", Params: json.RawMessage(`{"field":"` + rawField + `"}`)}
 		}
 		test.NewConfig(c, map[string]int{"gomaxprocs": 1, "capacity": 64})
 		p := &httpout.Plugin{}
-		p.Start(c, params(name))
+		p.Start(c, params(name, rw.avg))
 		wd := pipeline.WorkerData(nil)
-		s = &sink{out: func(b *pipeline.Batch) error { return p.VerifOut(&wd, b) }}
+		s = &sink{out: func(b *pipeline.Batch) error { return p.VerifOut(&wd, b) }, stop: p.Stop}
 	case 3:
 		it := hx.Items(cfg)
 		c := &kafkaout.Config{
@@ -212,22 +284,26 @@ func getSink(which int, cfg hx.Sx) *sink {
 			BatchSize_:    int(hx.Int(it[2])),
 			Timeout_:      time.Second,
 		}
-		p := kafkaout.VerifNew(c, &recProducer{}, avgSize, metric.NewCtl("verif_"+name, prometheus.NewRegistry(), time.Minute, 0))
+		p := kafkaout.VerifNew(c, &recProducer{}, rw.avg, metric.NewCtl("verif_"+name, prometheus.NewRegistry(), time.Minute, 0))
 		wd := pipeline.WorkerData(nil)
-		s = &sink{out: func(b *pipeline.Batch) error { return p.VerifOut(&wd, b) }}
+		s = &sink{out: func(b *pipeline.Batch) error { return p.VerifOut(&wd, b) }, stop: func() {}}
 	case 4:
-		c := &splunkout.Config{Endpoint: server(), Token: "tok", BatchSize: "16", WorkersCount: "1"}
+		c := &splunkout.Config{Endpoint: server(), Token: "tok", UseGzip: rw.gzip, GzipCompressionLevel: gzLevel, BatchSize: bs, WorkersCount: "1"}
 		test.NewConfig(c, map[string]int{"gomaxprocs": 1, "capacity": 64})
 		p := &splunkout.Plugin{}
-		p.Start(c, params(name))
+		p.Start(c, params(name, rw.avg))
 		wd := pipeline.WorkerData(nil)
-		s = &sink{out: func(b *pipeline.Batch) error { return p.VerifOut(&wd, b) }}
+		s = &sink{out: func(b *pipeline.Batch) error { return p.VerifOut(&wd, b) }, stop: p.Stop}
 	case 5:
-		s = gelfSink(name)
+		s = gelfSink(name, rw)
+	case 6:
+		s = lokiSink(name, cfg)
 	default:
 		panic("c19: unknown sink")
 	}
-	sinks[key] = s
+	if !fresh {
+		sinks[key] = s
+	}
 	return s
 }
 
@@ -257,7 +333,7 @@ var (
 	gelfCond = sync.NewCond(&gelfMu)
 )
 
-func gelfSink(name string) *sink {
+func gelfSink(name string, rw row) *sink {
 	ln, err := net.Listen("tcp", "127.0.0.1:0")
 	if err != nil {
 		panic(err)
@@ -283,13 +359,15 @@ func gelfSink(name string) *sink {
 			}()
 		}
 	}()
-	c := &gelfout.Config{Endpoint: ln.Addr().String(), BatchSize: "16", WorkersCount: "1", ReconnectInterval: "100h"}
+	c := &gelfout.Config{Endpoint: ln.Addr().String(), BatchSize: fdcfg.Expression(strconv.Itoa(rw.batch)), WorkersCount: "1", ReconnectInterval: "100h"}
 	test.NewConfig(c, map[string]int{"gomaxprocs": 1, "capacity": 64})
 	p := &gelfout.Plugin{}
-	p.Start(c, params(name))
-	gelfPlugin = p
+	p.Start(c, params(name, rw.avg))
+	if gelfPlugin == nil {
+		gelfPlugin = p
+	}
 	wd := pipeline.WorkerData(nil)
-	return &sink{out: func(b *pipeline.Batch) error {
+	return &sink{stop: func() { p.Stop(); _ = ln.Close() }, out: func(b *pipeline.Batch) error {
 		want := 0
 		b.ForEach(func(*pipeline.Event) { want++ })
 		gelfMu.Lock()
@@ -304,7 +382,7 @@ func gelfSink(name string) *sink {
 			time.Sleep(200 * time.Microsecond)
 			gelfMu.Lock()
 		}
-		data := append([]byte(nil), gelfData...)
+		data := canonGelfNow(append([]byte(nil), gelfData...))
 		gelfMu.Unlock()
 		// fault injection: a scripted status other than 2xx stands for a TCP write that failed after
 		// the payload was built; out() is then called again with the same batch, as the batcher does
@@ -333,7 +411,7 @@ func gelfOracle(enc []byte) []byte {
 	e := &pipeline.Event{Root: root, Buf: make([]byte, 0, 64)}
 	gelfPlugin.VerifFormatEvent(e)
 	out, _ := e.Encode(nil)
-	return out
+	return canonGelfNow(out)
 }
 
 // ---------------------------------------------------------------------------------------------
@@ -362,11 +440,22 @@ func c19Exec(which int, cs hx.Sx) hx.Sx {
 		return hx.Bool(json.Valid(hx.Bytes(cs)))
 	}
 	it := hx.Items(cs)
+	kind, _, fresh, dig := splitWhich(which)
+	if kind == 6 && lokiMayRetry(it[2]) && !lokiNothingToStrip(it[1]) && os.Getenv(lokiChildEnv) == "" {
+		return lokiInChild(which, cs)
+	}
 	snk := getSink(which, it[0])
+	if fresh {
+		defer snk.stop()
+	}
 	rec.mu.Lock()
 	rec.script = rec.script[:0]
 	for _, s := range hx.Items(it[2]) {
 		rec.script = append(rec.script, int(hx.Int(s)))
+	}
+	rec.dflt, rec.loki = 200, kind == 6
+	if kind == 6 {
+		rec.dflt = 204
 	}
 	rec.mu.Unlock()
 	var atts []hx.Sx
@@ -377,7 +466,7 @@ func c19Exec(which int, cs hx.Sx) hx.Sx {
 		}
 	}()
 batches:
-	for _, b := range hx.Items(it[1]) {
+	for bi, b := range hx.Items(it[1]) {
 		var evs []*pipeline.Event
 		for _, e := range hx.Items(b) {
 			f := hx.Items(e)
@@ -386,9 +475,26 @@ batches:
 				panic("c19: event does not decode: " + err.Error())
 			}
 			roots = append(roots, root)
+			if dig {
+				// what an action plugin in front of the output does: look fields up, which builds the
+				// map index of a root with more than 16 fields before the sink renames / removes fields
+				_ = root.Dig("no-such-field")
+				if fs := root.AsFields(); len(fs) > 0 {
+					_ = root.Dig(fs[len(fs)/2].AsString())
+				}
+			}
 			ev := &pipeline.Event{Root: root, Buf: make([]byte, 0, 256)}
 			ev.VerifSetKind(int(hx.Int(f[0])))
 			evs = append(evs, ev)
+		}
+		if snk.run != nil { // the plugin's own batcher makes the attempts
+			var got []hx.Sx
+			if p := hx.Catch(func() { got = snk.run(evs) }); p != "" {
+				atts = append(atts, hx.L(hx.I(2)))
+				break batches
+			}
+			atts = append(atts, got...)
+			continue
 		}
 		batch := pipeline.NewPreparedBatch(evs)
 		for try := 0; try < 3; try++ {
@@ -411,6 +517,9 @@ batches:
 			if err == nil {
 				break
 			}
+		}
+		if snk.wait > 0 && bi%2 == 1 {
+			time.Sleep(snk.wait)
 		}
 	}
 	return hx.L(atts...)
@@ -500,6 +609,9 @@ const (
 
 type gen struct {
 	c *hmain.Ctx
+	// set while a family is generated whose gelf documents are judged by the model's own predicate
+	// (every chunk must be a JSON document) instead of the generation-time oracle check
+	noGelfOracle bool
 }
 
 // mkEv builds the case form of an event for a sink; fields = the ES index values (nil otherwise)
@@ -527,18 +639,35 @@ func (g *gen) mkEv(kind int, enc []byte, fields []string, which int, rawHTTP boo
 		escs = append(escs, hx.B(e))
 	}
 	topic := ""
-	if which == 3 {
+	if which%16 == 3 {
 		topic = root.Dig(topicField).AsString()
 	}
+	which %= 16 // the oracle values do not depend on the variant of the sink
 	var alt hx.Sx = hx.I(0)
 	switch {
+	case which == 6:
+		ts, msg, rest, bad, ok := lokiOracle(enc)
+		if !ok {
+			panic("c19 gen: loki oracle rejects " + string(enc))
+		}
+		w.Oracle("loki: the marshalled timestamp, line and rest of the event are JSON documents (encoding/json.Valid)",
+			(len(ts) == 0 || json.Valid(ts)) && json.Valid(msg) && json.Valid(rest), string(enc))
+		if bad {
+			topic = "bad"
+		}
+		raws = []hx.Sx{hx.B(ts), hx.B(msg)}
+		alt = hx.B(rest)
 	case which == 2 && rawHTTP:
 		if n := root.Dig(rawField); n != nil {
 			alt = hx.B(n.Encode(nil))
 		}
 	case which == 5:
 		a := gelfOracle(enc)
-		w.Oracle("gelf: the rewritten event is one JSON document without NUL", json.Valid(a) && bytes.IndexByte(a, 0) < 0, string(a))
+		if !g.noGelfOracle {
+			w.Oracle("gelf: the rewritten event is one JSON document without NUL", json.Valid(a) && bytes.IndexByte(a, 0) < 0, string(a))
+			ok, detail := gelfTimestampRule(root, a)
+			w.Oracle("gelf: a numeric time is divided by 1000 while above 1e12 (at most twice); below 1e9, or not a number / date, it becomes the clock (second implementation of makeTimestampField)", ok, detail)
+		}
 		alt = hx.B(a)
 	}
 	return hx.L(hx.I(kind), hx.B(enc), hx.L(raws...), hx.L(escs...), hx.S(topic), alt)
@@ -647,6 +776,18 @@ func scripts(alpha []int, maxLen int) [][]int {
 	return out
 }
 
+type sinkCfg struct {
+	which  int
+	cfg    hx.Sx
+	fields []string
+	raw    bool
+}
+
+func (sc sinkCfg) variant(rowIdx int, fresh, dig bool) sinkCfg {
+	sc.which = mkWhich(sc.which%16, rowIdx, fresh, dig)
+	return sc
+}
+
 func ints(xs []int) hx.Sx { return hx.List(xs, func(i int) hx.Sx { return hx.I(i) }) }
 
 func c19Gen(c *hmain.Ctx) {
@@ -667,12 +808,6 @@ func c19Gen(c *hmain.Ctx) {
 		w.Oracle("time.Format of the chosen time_format is the string itself", time.Now().Format(t) == t, t)
 	}
 
-	type sinkCfg struct {
-		which  int
-		cfg    hx.Sx
-		fields []string
-		raw    bool
-	}
 	es1 := esCfg{"index", "idx-%", []string{"svc"}, "tt", false}
 	es2 := esCfg{"create", "%-x-%%", []string{"svc", "@time", "lvl"}, "qq-ww", false}
 	es1s := esCfg{"index", "idx-%", []string{"svc"}, "tt", true}
@@ -730,6 +865,7 @@ func c19Gen(c *hmain.Ctx) {
 	}
 	w.Count("exhaustive_batches_le_3_over_11_event_options_x_sink_configs")
 
+	glap("exhaustive")
 	// ---- 2. exhaustive split scripts: batches of <= 4 plain events x every script over {200,413,500}
 	//         of length <= 4 (ES and http with split_batch)
 	for _, sc := range []sinkCfg{{0, es3.sx(), es3.vals, false}, {2, hx.L(hx.I(0), hx.I(1)), nil, false}} {
@@ -754,6 +890,7 @@ func c19Gen(c *hmain.Ctx) {
 		}
 	}
 
+	glap("exh-split")
 	// ---- 3. random: several successive batches through the same worker data, random events with
 	//         adversarial values, random scripts (413 / 5xx / 400), retries
 	randCfg := func() sinkCfg {
@@ -779,6 +916,9 @@ func c19Gen(c *hmain.Ctx) {
 		case 6:
 			return allSinks[10]
 		}
+		if r.Chance(1, 3) {
+			return allSinks[11] // gelf (real TCP); its scripts are cut down to successes below
+		}
 		return allSinks[0]
 	}
 	randScript := func(n int) []int {
@@ -791,7 +931,7 @@ func c19Gen(c *hmain.Ctx) {
 				s = append(s, 500)
 			case 5:
 				if r.Chance(1, 4) {
-					s = append(s, hx.Pick(r, []int{400, 503, 201, 202, 404}))
+					s = append(s, hx.Pick(r, []int{400, 503, 201, 202, 404, 199, 203, 204}))
 				} else {
 					s = append(s, 200)
 				}
@@ -826,9 +966,16 @@ func c19Gen(c *hmain.Ctx) {
 		if r.Chance(2, 3) {
 			s = randScript(r.Intn(12))
 		}
+		if sc.which == 5 {
+			// a failed gelf write is the known finding C19-gelf-retry-reformat (stream retry-gelf)
+			for k := range s {
+				s[k] = 200 + s[k]%3
+			}
+		}
 		c.Do("random-"+names[sc.which], sc.which, hx.L(sc.cfg, hx.L(bs...), ints(s)), total >= 2)
 	}
 
+	glap("random")
 	// ---- 4. adversarial index / topic values one at a time (ES header, kafka topic)
 	for _, v := range nasty {
 		for _, v2 := range []string{"", "z", "\"", "\n"} {
@@ -844,6 +991,7 @@ func c19Gen(c *hmain.Ctx) {
 		}
 	}
 
+	glap("adversarial")
 	// ---- 5. retry: the first attempt (and sometimes the second) fails, the payload of the next one
 	//         must equal the model's
 	for i := 0; i < 150*c.Scale; i++ {
@@ -864,6 +1012,7 @@ func c19Gen(c *hmain.Ctx) {
 		c.Do("retry-"+names[sc.which], sc.which, hx.L(sc.cfg, hx.L(hx.L(evs...), hx.L(evs...)), ints(s)), true)
 	}
 
+	glap("retry")
 	// ---- 6. big split: up to 16 simple events, 413-heavy scripts (ES and http)
 	for i := 0; i < 300*c.Scale; i++ {
 		sc := hx.Pick(r, []sinkCfg{{0, es3.sx(), es3.vals, false}, {0, es1s.sx(), es1s.vals, false}, {2, hx.L(hx.I(0), hx.I(1)), nil, false}})
@@ -890,6 +1039,7 @@ func c19Gen(c *hmain.Ctx) {
 		c.Do("split-"+names[sc.which], sc.which, hx.L(sc.cfg, hx.L(hx.L(evs...)), ints(s)), true)
 	}
 
+	glap("split")
 	// ---- 7. gelf sample (real TCP): a few batches, one scripted reconnect-free run
 	gl := allSinks[11]
 	for i := 0; i < 60*c.Scale; i++ {
@@ -920,6 +1070,11 @@ func c19Gen(c *hmain.Ctx) {
 		}
 	}
 
+	glap("gelf")
+	// ---- 7c..: streams that cross the buffer / table / status thresholds (thresholds.go)
+	g.thresholdStreams(allSinks, names, es3.sx(), es3.vals)
+
+	glap("thresholds")
 	// ---- 8. Batch.ForEach alone: every kind vector of length <= 5 over {0,1,2,3}
 	var reck func(cur []int)
 	reck = func(cur []int) {
@@ -985,6 +1140,7 @@ func c19Gen(c *hmain.Ctx) {
 		}
 		c.Do("random-strbody", 8, hx.B(s), true)
 	}
+	glap("foreach+json")
 	strAlpha := []byte("a\"\\u0n\x1f")
 	var recs func(cur []byte)
 	recs = func(cur []byte) {
@@ -1000,6 +1156,16 @@ func c19Gen(c *hmain.Ctx) {
 
 var tmpDirs []string
 
+var glapT = time.Now()
+
+// development aid: C19_TIMING=1 prints the wall time of every generator section
+func glap(what string) {
+	if os.Getenv("C19_TIMING") != "" {
+		fmt.Fprintf(os.Stderr, "C19_TIMING main %-12s %v\n", what, time.Since(glapT))
+	}
+	glapT = time.Now()
+}
+
 func main() {
 	defer func() {
 		for _, d := range tmpDirs {
@@ -1007,6 +1173,6 @@ func main() {
 		}
 	}()
 	hmain.Run(&hmain.Prop{ID: "C19",
-		Rule: "exhaustive: every batch of <= 3 events over 5 event shapes x {regular, parent} (+child) for 11 sink configurations; every 200/413/500 script of length <= 4 on batches of <= 4 events for ES/http split; every kind vector <= 5 for ForEach; every string <= 5 (6) over a JSON alphabet for the recogniser. Random: 1-4 successive batches of 0-16 random events (adversarial strings, non-string values) with random scripts, retries, 413-heavy splits. Non-trivial = at least 2 events and one deliverable (sinks), >= 2 symbols (recogniser); distinct = distinct (sub-model, case) text.",
+		Rule: "exhaustive: every batch of <= 3 events over 5 event shapes x {regular, parent} (+child) for 11 sink configurations; every 200/413/500 script of length <= 4 on batches of <= 4 events for ES/http split; every kind vector <= 5 for ForEach; every string <= 5 (6) over a JSON alphabet for the recogniser. Random: 1-4 successive batches of 0-16 random events (adversarial strings, non-string values) with random scripts, retries, 413-heavy splits. Threshold streams (thresholds.go): rows-* small AvgEventSize x batch_size rows incl. gzip / two endpoints on persistent instances, bigsmall-* payloads above and below the row's outBuf threshold alternating on one fresh instance (also the 65536-byte production row), bigbatch-* 17-40 events, status-edge-* 199..300, gelf-time values around 1e9 / 1e12, gelf-wide / wide-* 15-40 field roots with Dig before out(), rotate-file seal-up between writes, exhaustive-/random-/status-edge-loki through the plugin's own batcher. Non-trivial = at least 2 events and one deliverable (sinks), >= 2 symbols (recogniser); distinct = distinct (sub-model, case) text.",
 		Gen:  c19Gen, Exec: c19Exec})
 }
